@@ -310,14 +310,20 @@ def f_redefine(inp=("src.txt",), out=("r.txt",)):
     return {"plan.py": script(prog), "r.py": script(r), "src.txt": "1\n", "src2.txt": "2\n"}
 
 
-def f_optional(u=1, o2_need="OPTIONAL", src="x"):
-    """O1 (optional) -> O2 (optional/default) -> U (default)."""
+def f_optional(u=1, o2_need="OPTIONAL", src="x", usub=0):
+    """O1 (optional) -> O2 (optional/default) -> U (default); U may be defined by a sub-plan."""
     prog = [["static", "src.txt"],
             tr("O1", ["src.txt"], ["o1.txt"], need="OPTIONAL"),
             tr("O2", ["o1.txt"], ["out/o2.txt"], need=o2_need)]
-    if u:
+    files = {"src.txt": f"src {src}\n"}
+    if usub:
+        prog.insert(0, ["static", "sub.py"])
+        prog.append(["plan", "./sub.py"])
+        files["sub.py"] = script([tr("U", ["out/o2.txt"], ["u.txt"])] if u else [])
+    elif u:
         prog.append(tr("U", ["out/o2.txt"], ["u.txt"]))
-    return {"plan.py": script(prog), "src.txt": f"src {src}\n"}
+    files["plan.py"] = script(prog)
+    return files
 
 
 DOMAINS = {
